@@ -89,6 +89,12 @@ pub fn obs(rt: &CoreRuntime, lcd: bool) -> Value {
         "kil": rt.memory.read_internal_byte_silent(0xF2).unwrap_or(0),
         "fifo": rt.keyboard.as_ref().map(|k| k.fifo_snapshot()).unwrap_or_default(),
     });
+    let opc = rt.memory.load(pc, 8).unwrap_or(0);
+    o["op_eff"] = if (0x21..=0x27).contains(&opc) || (0x30..=0x37).contains(&opc) {
+        json!(rt.memory.load(pc.wrapping_add(1), 8).unwrap_or(0))
+    } else {
+        json!(opc)
+    };
     if lcd {
         if let Some(l) = rt.lcd.as_ref() {
             let (meta, payload) = l.export_snapshot();
